@@ -63,6 +63,53 @@ void h_readname_loop(void)
 	VERIF_REACH();
 }
 
+void h_readshort(void) { char *packet; char **src; unsigned short *dst; readshort(packet, src, dst); VERIF_REACH(); }
+void h_readlong(void) { char *packet; char **src; uint32_t *dst; readlong(packet, src, dst); VERIF_REACH(); }
+void h_readdata(void) { char *packet; char **src; char *dst; size_t len; readdata(packet, src, dst, len); VERIF_REACH(); }
+void h_putbyte(void) { char **dst; unsigned char v; putbyte(dst, v); VERIF_REACH(); }
+void h_putshort(void) { char **dst; unsigned short v; putshort(dst, v); VERIF_REACH(); }
+void h_putlong(void) { char **dst; uint32_t v; putlong(dst, v); VERIF_REACH(); }
+void h_putdata(void)
+{
+	size_t len = nondet_size_t();
+	__CPROVER_assume(len <= 65536);
+	char *out = malloc(len), *data = malloc(len), *p = out;
+	char keep = 0;
+	if (g_m < len) keep = data[g_m];
+	int r = putdata(&p, data, len);
+	__CPROVER_assert(p == out + len && (size_t)r == len, "putdata advances the cursor by len");
+	__CPROVER_assert(!(g_m < len) || out[g_m] == keep, "putdata copies the bytes");
+	VERIF_REACH();
+}
+
+/* readtxtbin: record data of exactly srcremain bytes (exact-size object), output of dstremain */
+void h_readtxtbin(void)
+{
+	size_t srcremain = nondet_size_t(), dstremain = nondet_size_t();
+	__CPROVER_assume(srcremain <= 65535 && dstremain <= 4096);
+	char *rec = malloc(srcremain), *dst = malloc(dstremain), *src = rec;
+	char old = 0;
+	if (g_p < srcremain)
+		old = rec[g_p];
+	int r = readtxtbin(rec, &src, srcremain, dst, dstremain);
+	__CPROVER_assert(r >= 0 && (size_t)r <= dstremain, "readtxtbin returns at most the output space");
+	__CPROVER_assert(__CPROVER_same_object(src, rec) && src >= rec && src <= rec + srcremain, "readtxtbin cursor stays inside the record data");
+	__CPROVER_assert(!(g_p < srcremain) || old == rec[g_p], "readtxtbin does not write the datagram");
+	VERIF_REACH();
+}
+
+void h_puttxtbin(void)
+{
+	size_t bufremain = nondet_size_t(), fromremain = nondet_size_t();
+	__CPROVER_assume(bufremain <= 65536 && fromremain <= 65536);
+	char *out = malloc(bufremain), *from = malloc(fromremain), *p = out;
+	int r = puttxtbin(&p, bufremain, from, fromremain);
+	__CPROVER_assert(r >= -1 && r <= (int)bufremain, "puttxtbin returns -1 or at most the space");
+	__CPROVER_assert(__CPROVER_same_object(p, out) && p >= out && p <= out + bufremain, "puttxtbin cursor stays inside the buffer");
+	__CPROVER_assert(r < 0 || (p == out + r && (size_t)r == fromremain + (fromremain + 251) / 252), "puttxtbin: total = data + one length byte per 252-byte string");
+	VERIF_REACH();
+}
+
 void h_readname(void)
 {
 	int packetlen = nondet_int();
